@@ -334,50 +334,47 @@ def run_case(case):
         # fault history: the run that writes the cache hits "disk full" when the cache file is flushed (close() raises after a partial write);
         # later runs must still answer like eager loading
         gz6 = fresh_copy('cacheF')
-        from singlecellmultiomics.alleleTools import alleleTools as at_mod
-        import gzip as _gzip
+        import builtins
         fired = [0]
+        real_open = builtins.open
+        cache_root = os.path.abspath(os.path.dirname(gz6)) + os.sep
 
-        class _FaultyGzip:
-            def __getattr__(self_, name):
-                return getattr(_gzip, name)
+        def faulty_open(file, mode='r', *a, **k):
+            # every file written below the directory of this VCF copy (the cache lives there) loses its second half when it is closed, and the
+            # close fails with ENOSPC - whichever way the writer opens it (gzip.open, GzipFile, open): all of them end in builtins.open
+            f = real_open(file, mode, *a, **k)
+            if not (isinstance(file, (str, bytes, os.PathLike)) and os.path.abspath(os.fsdecode(file)).startswith(cache_root) and ('w' in mode or 'a' in mode or 'x' in mode)):
+                return f
 
-            def open(self_, path, mode='rb', *a, **k):
-                if 'w' not in mode:
-                    return _gzip.open(path, mode, *a, **k)
-                import builtins
-                raw = builtins.open(path, 'wb')
-                gzf = _gzip.GzipFile(fileobj=raw, mode='wb')
-                txt = io.TextIOWrapper(gzf)
+            class H:
+                done = False
 
-                class H:
-                    def write(s_, data):
-                        return txt.write(data)
+                def __getattr__(s_, name):
+                    return getattr(f, name)
 
-                    def __enter__(s_):
-                        return s_
+                def __enter__(s_):
+                    return s_
 
-                    def __exit__(s_, *exc):
-                        s_.close()
-                        return False
+                def __exit__(s_, *exc):
+                    s_.close()
+                    return False
 
-                    def close(s_):
-                        # the data reaches the disk only partially (whatever name the file has by now), then the flush fails
-                        txt.flush()
-                        gzf.close()
-                        raw.flush()
-                        size = raw.tell()
-                        raw.truncate(max(1, size // 2))
-                        raw.close()
-                        fired[0] += 1
-                        raise OSError(28, 'No space left on device (injected)')
-                return H()
-        old_gzip = at_mod.gzip
-        at_mod.gzip = _FaultyGzip()
+                def close(s_):
+                    if s_.done:
+                        return
+                    s_.done = True
+                    f.flush()
+                    size = f.tell()
+                    f.truncate(max(1, size // 2))
+                    f.close()
+                    fired[0] += 1
+                    raise OSError(28, 'No space left on device (injected)')
+            return H()
+        builtins.open = faulty_open
         try:
             run_mode('cache_write_fault/run1', lambda: AlleleResolver(gz6, **kwargs(dict(lazyLoad=True, use_cache=True))))
         finally:
-            at_mod.gzip = old_gzip
+            builtins.open = real_open
         acc.count('fault:cache_close_failures', fired[0])
         run_mode('cache_write_fault/run2', lambda: AlleleResolver(gz6, **kwargs(dict(lazyLoad=True, use_cache=True))))
         wit = {'config': cfg, 'vcf_rows': rows[:40], 'samples': samples, 'contigs': contigs}
